@@ -1,8 +1,284 @@
-//! (engine stub)
-#[allow(unused_imports)]
-use crate::util::*;
+//! C17, spec -> impl: runs of the real `xq` / `xe` binaries (built from /repo's examples) on the cases emitted
+//! by MC_Cli.tla.  Observed: exit status, stdout, stderr.  For xe the compact output is parsed and projected
+//! to a content signature, next to the signature of the specification's expected text; for xq the library's
+//! own serialization of exactly the nodes the specification selects is put next to stdout.  Trace_Cli.tla
+//! judges every run.
 
-pub fn main(sub: &str, _args: &[String]) -> i32 {
-    eprintln!("unknown subcommand {}", sub);
-    2
+use crate::util::*;
+use serde_json::{json, Value as J};
+use std::collections::HashMap;
+use std::io::{Read, Write};
+use std::process::{Command, Stdio};
+use std::time::{Duration, Instant};
+use xml_dom::{Attr, CharacterData, Document, DocumentType, Element, Node, ProcessingInstruction, XmlDocument, XmlNode};
+
+pub fn main(sub: &str, args: &[String]) -> i32 {
+    match sub {
+        "cli-run" => run(args),
+        _ => {
+            eprintln!("unknown subcommand {}", sub);
+            2
+        }
+    }
+}
+
+struct Obs {
+    code: i64, // exit code; -1 = killed by a signal; -2 = timeout
+    stdout: String,
+    stdout_utf8: bool,
+    stderr_len: usize,
+}
+
+fn run_tool(bin: &str, args: &[String], stdin_text: &str) -> Obs {
+    let mut child = match Command::new(bin)
+        .args(args)
+        .stdin(Stdio::piped())
+        .stdout(Stdio::piped())
+        .stderr(Stdio::piped())
+        .spawn()
+    {
+        Ok(c) => c,
+        Err(e) => {
+            eprintln!("cannot start {}: {}", bin, e);
+            std::process::exit(2);
+        }
+    };
+    if let Some(mut si) = child.stdin.take() {
+        let _ = si.write_all(stdin_text.as_bytes());
+    }
+    let mut so = child.stdout.take().unwrap();
+    let mut se = child.stderr.take().unwrap();
+    let t_out = std::thread::spawn(move || {
+        let mut b = vec![];
+        let _ = so.read_to_end(&mut b);
+        b
+    });
+    let t_err = std::thread::spawn(move || {
+        let mut b = vec![];
+        let _ = se.read_to_end(&mut b);
+        b
+    });
+    let t0 = Instant::now();
+    let status = loop {
+        match child.try_wait() {
+            Ok(Some(s)) => break Some(s),
+            Ok(None) => {
+                if t0.elapsed() > Duration::from_secs(10) {
+                    let _ = child.kill();
+                    let _ = child.wait();
+                    break None;
+                }
+                std::thread::sleep(Duration::from_millis(2));
+            }
+            Err(_) => break None,
+        }
+    };
+    let out = t_out.join().unwrap_or_default();
+    let err = t_err.join().unwrap_or_default();
+    let code = match status {
+        None => -2,
+        Some(s) => s.code().map(|c| c as i64).unwrap_or(-1),
+    };
+    let (stdout, ok) = match String::from_utf8(out) {
+        Ok(s) => (s, true),
+        Err(e) => (String::from_utf8_lossy(e.as_bytes()).to_string(), false),
+    };
+    Obs { code, stdout, stdout_utf8: ok, stderr_len: err.len() }
+}
+
+fn parse_merged(text: &str) -> Option<XmlDocument> {
+    let t = text.to_string();
+    guarded(move || {
+        let ctx = xml_dom::Context::from_text_expanded(true);
+        match XmlDocument::from_raw_with_context(&t, ctx) {
+            Ok((rest, d)) if rest.trim().is_empty() => Some(d),
+            _ => None,
+        }
+    })
+    .unwrap_or(None)
+}
+
+/// Content signature of a whole document (merged view): nested lists, attributes sorted by name.
+fn sig_node(n: &XmlNode) -> Result<J, String> {
+    let e = |x: xml_dom::error::Error| x.to_string();
+    Ok(match n {
+        XmlNode::Document(d) => {
+            let mut kids = vec![];
+            for c in d.child_nodes().iter() {
+                kids.push(sig_node(&c)?);
+            }
+            json!(["doc", kids])
+        }
+        XmlNode::DocumentType(t) => json!(["doctype", string_to_cps(&t.name())]),
+        XmlNode::Element(x) => {
+            let mut attrs: Vec<(String, String)> = vec![];
+            if let Some(m) = n.attributes() {
+                for a in m.iter() {
+                    attrs.push((a.name(), a.value().map_err(e)?));
+                }
+            }
+            attrs.sort();
+            let mut kids = vec![];
+            for c in x.child_nodes().iter() {
+                let s = sig_node(&c)?;
+                // empty character runs are not representable in text
+                if s[0] == "chars" && s[1].as_array().map(|a| a.is_empty()).unwrap_or(false) {
+                    continue;
+                }
+                kids.push(s);
+            }
+            json!(["elem", string_to_cps(&x.tag_name()),
+                   attrs.iter().map(|(n, v)| json!([string_to_cps(n), string_to_cps(v)])).collect::<Vec<_>>(), kids])
+        }
+        XmlNode::ExpandedText(t) => json!(["chars", string_to_cps(&t.data().map_err(e)?)]),
+        XmlNode::Text(t) => json!(["chars", string_to_cps(&t.data().map_err(e)?)]),
+        XmlNode::CData(t) => json!(["chars", string_to_cps(&t.data().map_err(e)?)]),
+        XmlNode::Comment(t) => json!(["comment", string_to_cps(&t.data().map_err(e)?)]),
+        XmlNode::PI(p) => json!(["pi", string_to_cps(&p.target()), string_to_cps(&p.data())]),
+        other => json!(["other", format!("{:?}", other.node_type())]),
+    })
+}
+
+fn signature_of_text(text: &str) -> J {
+    match parse_merged(text) {
+        None => json!({"ok": false}),
+        Some(d) => {
+            let n = xml_dom::AsNode::as_node(&d);
+            match guarded(move || sig_node(&n)) {
+                Ok(Ok(s)) => json!({"ok": true, "sig": s}),
+                Ok(Err(e)) => json!({"ok": false, "why": e}),
+                Err(p) => json!({"ok": false, "why": format!("panic: {}", p)}),
+            }
+        }
+    }
+}
+
+/// the library's own compact serialization of the nodes the specification selects, one per line
+fn render_selected(text: &str, tree: &J, sel: &[i64]) -> Option<String> {
+    let doc = crate::xp::load_doc(text, tree).ok()?;
+    if doc.mismatch.is_some() {
+        return None;
+    }
+    // id -> node, by walking the public API
+    fn walk(n: &XmlNode, m: &mut HashMap<usize, XmlNode>) {
+        m.insert(n.id(), n.clone());
+        if let Some(a) = n.attributes() {
+            for x in a.iter() {
+                let an = xml_dom::AsNode::as_node(&x);
+                m.insert(an.id(), an);
+            }
+        }
+        for c in n.child_nodes().iter() {
+            walk(&c, m);
+        }
+    }
+    let mut by_id = HashMap::new();
+    walk(&xml_dom::AsNode::as_node(&doc.dom), &mut by_id);
+    let mut by_idx: HashMap<i64, XmlNode> = HashMap::new();
+    for (id, idx) in &doc.ids {
+        if let Some(n) = by_id.get(id) {
+            by_idx.insert(*idx, n.clone());
+        }
+    }
+    let mut out = String::new();
+    for i in sel {
+        let n = by_idx.get(i)?;
+        out.push_str(&format!("{}\n", n));
+    }
+    Some(out)
+}
+
+fn run(args: &[String]) -> i32 {
+    let inp = arg_value(args, "--in").unwrap_or("-");
+    let outp = arg_value(args, "--out").unwrap_or("-");
+    let xq = arg_value(args, "--xq").unwrap_or("xq").to_string();
+    let xe = arg_value(args, "--xe").unwrap_or("xe").to_string();
+    let mut out = open_out(outp);
+    let mut cases: Vec<J> = vec![];
+    for_each_case(inp, |c| cases.push(c));
+    // TLC prints cases in a run-dependent order: sort for reproducible traces
+    cases.sort_by_key(|c| (c["di"].as_i64(), c["ei"].as_i64(), c["fi"].as_i64()));
+    let jobs: usize = arg_value(args, "--jobs").and_then(|v| v.parse().ok()).unwrap_or(8);
+    let chunks: Vec<Vec<J>> = (0..jobs).map(|k| cases.iter().skip(k).step_by(jobs).cloned().collect()).collect();
+    let mut handles = vec![];
+    for chunk in chunks {
+        let (xq, xe) = (xq.clone(), xe.clone());
+        handles.push(std::thread::spawn(move || {
+            let mut evs: Vec<J> = vec![];
+            for c in chunk {
+                run_case(&c, &xq, &xe, &mut evs);
+            }
+            evs
+        }));
+    }
+    let mut all: Vec<J> = vec![];
+    for h in handles {
+        all.extend(h.join().unwrap_or_default());
+    }
+    all.sort_by_key(|e| (e["di"].as_i64(), e["ei"].as_i64(), e["fi"].as_i64(), e["indent"].as_bool()));
+    let n = all.len();
+    for ev in all {
+        writeln!(out, "{}", ev).unwrap();
+    }
+    out.flush().unwrap();
+    println!("{}", json!({"runs": n}));
+    0
+}
+
+fn run_case(c: &J, xq: &str, xe: &str, evs: &mut Vec<J>) {
+    {
+        let text = cps_to_string(&c["text"]);
+        let expr = cps_to_string(&c["expr"]);
+        let k = c["k"].as_str().unwrap_or("");
+        for indent in [false, true] {
+            let mut a: Vec<String> = vec!["--xpath".into(), expr.clone()];
+            if !indent {
+                a.push("--no-indent".into());
+            }
+            let mut ev = json!({"event": k, "di": c["di"], "ei": c["ei"], "fi": c["fi"], "indent": indent});
+            if k == "xq" {
+                let o = run_tool(xq, &a, &text);
+                ev["code"] = json!(o.code);
+                ev["stderr_len"] = json!(o.stderr_len);
+                ev["utf8"] = json!(o.stdout_utf8);
+                ev["stdout"] = string_to_cps(&o.stdout);
+                // scalar outputs as the harness reads them
+                let t = o.stdout.trim_end_matches('\n');
+                ev["num"] = match t.parse::<f64>() {
+                    Ok(x) => crate::xp::num_json(x),
+                    Err(_) => json!({"cls": "unparsable", "v": 0}),
+                };
+                if c["value"]["t"] == "nodes" {
+                    let sel: Vec<i64> = c["value"]["v"].as_array().map(|v| v.iter().filter_map(|x| x.as_i64()).collect()).unwrap_or_default();
+                    let tree = c["tree"].clone();
+                    let t2 = text.clone();
+                    match guarded(move || render_selected(&t2, &tree, &sel)) {
+                        Ok(Some(s)) => {
+                            ev["sel_out"] = string_to_cps(&s);
+                            ev["renderable"] = json!(true);
+                        }
+                        _ => {
+                            ev["sel_out"] = json!([]);
+                            ev["renderable"] = json!(false);
+                        }
+                    }
+                } else {
+                    ev["sel_out"] = json!([]);
+                    ev["renderable"] = json!(true);
+                }
+            } else {
+                a.push("--value".into());
+                a.push(cps_to_string(&c["frag"]));
+                let o = run_tool(xe, &a, &text);
+                ev["code"] = json!(o.code);
+                ev["stderr_len"] = json!(o.stderr_len);
+                ev["utf8"] = json!(o.stdout_utf8);
+                ev["expect_text"] = c["expect"].clone();
+                ev["out"] = signature_of_text(&o.stdout);
+                ev["exp"] = signature_of_text(&cps_to_string(&c["expect"]));
+                ev["stdout_head"] = string_to_cps(&o.stdout.chars().take(200).collect::<String>());
+            }
+            evs.push(ev);
+        }
+    }
 }
